@@ -1,6 +1,6 @@
 (* C10 - Bezier subdivision refines the same curve until every piece is flat.  Statements only.
-   Exact arithmetic.  Termination is NOT proved (see C10_terminates_partial): the theorems are about runs that return. *)
-From Plotink Require Import Base.Prelude Model.Simplify Model.Subdiv Proofs.SimplifyProofs Proofs.SubdivProofs.
+   Exact arithmetic.  The call returns for every node list and every flat > 0 (C10_terminates); the other theorems describe what it returns. *)
+From Plotink Require Import Base.Prelude Model.Simplify Model.Subdiv Proofs.SimplifyProofs Proofs.SubdivProofs Proofs.SubdivTerm.
 Open Scope Q_scope.
 
 (* de Casteljau at 1/2: the halves are the original cubic on [0,1/2] and [1/2,1] *)
@@ -37,9 +37,21 @@ Proof.
   - intros [H1 H2]. repeat constructor; assumption.
 Qed.
 
-(* termination (partial): the full statement "for every node list and flat > 0 some fuel suffices" is not proved;
-   what is proved is that the result of a returning run does not depend on the fuel *)
-Theorem C10_terminates_partial : forall flat f acc a rest out, go flat f acc a rest = Some out ->
+(* termination: for every node list and every flat > 0 some number of loop iterations suffices, and any larger budget
+   gives the same result (the fuel of the model is the number of iterations of the two nested while loops) *)
+Theorem C10_terminates : forall flat sp, 0 < flat ->
+  exists fuel out, forall g, (fuel <= g)%nat -> subdivide flat g sp = Some out.
+Proof. exact subdivide_terminates. Qed.
+
+(* ... with an explicit bound per piece: a piece whose control-polygon edges are at most e in every coordinate, with
+   2 e^2 < flat^2 4^k, is finished after at most 2^(k+1) - 1 iterations, leaving the following pieces untouched *)
+Theorem C10_piece_bound : forall flat k a b, lev flat (piece_of a b) k ->
+  forall acc rest, exists n acc' b', (n <= 2 ^ (k + 1) - 1)%nat /\ npt b' = npt b /\ hout b' = hout b /\
+    forall fuel, go flat (n + fuel) acc a (b :: rest) = go flat fuel acc' b' rest.
+Proof. exact go_piece. Qed.
+
+(* the result of a returning run does not depend on the budget *)
+Theorem C10_terminates_fuel_irrelevant : forall flat f acc a rest out, go flat f acc a rest = Some out ->
   forall g, (f <= g)%nat -> go flat g acc a rest = Some out.
 Proof. exact go_fuel_mono. Qed.
 
@@ -53,4 +65,6 @@ Print Assumptions C10_refines_and_flat.
 Print Assumptions C10_dyadic_tiling.
 Print Assumptions C10_nodes_survive.
 Print Assumptions C10_flat_is_distance.
-Print Assumptions C10_terminates_partial.
+Print Assumptions C10_terminates.
+Print Assumptions C10_piece_bound.
+Print Assumptions C10_terminates_fuel_irrelevant.
